@@ -34,7 +34,7 @@ def run(tier):
     sfx = 'q' if q else 't'
     design = [('c06hd1_' + sfx, mc.ALL_TAKE), ('c06hd2_' + sfx, mc.ALL_TAKE),
               ('c06hd0_' + sfx, mc.ALL_TAKE + ['TakeInvalid']),
-              ('c06cap_' + sfx, mc.ALL_TAKE + ['Overflow', 'EjectCheck']),
+              ('c06cap_' + sfx, mc.ALL_TAKE + ['Overflow', 'EjectCheck']), ('c06cap1_q', ['NewMolecule', 'Overflow', 'FinalFlush']),
               ('c06chicr_q', mc.ALL_TAKE), ('c06plain_q', mc.ALL_TAKE + ['EjectCheck']), ('c06plainr_q', mc.ALL_TAKE)]
     negative = [('c06cap_dup', ['Inv_C06_OnePrimary', 'Inv_C06_Idempotent']), ('c06plain_contig', ['Inv_C06_Homogeneous'])]
     covered = mc.run_mcs(c, design, negative, workers=4, par=4)
